@@ -77,11 +77,51 @@ def _run_tree(ck: Check, sr_k8, sr, drv, G, P, W, R, root: str, n_pat: int, exot
             _match_cases(ck, sr_k8, sr, drv, G, P, W, R, root, tree, ents, pats, fl, exclude, full)
             if isinstance(pats, str) and exclude is None:
                 _match_vs_rglob(ck, sr, G, P, W, root, tree, ents, pats, fl)
+            if R.random() < 0.25:
+                _neg_match_vs_rglob(ck, sr, G, P, R, root, tree, ents)
     finally:
         os.chdir(cwd0)
 
 
 # -------------------------------------------------------------- Path.glob / Path.rglob
+
+def _neg_match_vs_rglob(ck, sr, G, P, R, root, tree, ents) -> None:
+    """match ⇔ rglob for lists with an INLINE exclusion (`[p, '!x']`, NEGATE) and for exclude=, globstar-free inclusions (none of the
+    recorded globstar findings applies), on every entry also through symlinked directories (added after seeded change C16f: the
+    exclusions of match() were symlink-checked, those of rglob were not)"""
+    names = sorted({e.split('/')[-1] for e in ents if e})
+    if not names:
+        return
+    links = [e for e in ents if e and os.path.islink(os.path.join(root, e)) and os.path.isdir(os.path.join(root, e))]
+    pos = R.choice(['*/*', '*', '*/*/*', '?*', '*/?*'] + ([G.escape(R.choice(links)) + '/*'] if links else []))
+    nm = R.choice(names)
+    ex = R.choice([G.escape(nm), G.escape(nm[:1]) + '*', '*' + G.escape(nm[-1:]), '*/' + G.escape(nm), '**/' + G.escape(nm)])
+    fl = R.choice([0, P.EXTGLOB, P.GLOBSTAR, P.GLOBSTAR | P.EXTGLOB, P.DOTGLOB])
+    cands = ents[1:] + K.entries_through_links(root, ents)
+    for how in ('inline', 'exclude='):
+        if how == 'inline':
+            args, kw, f2 = [pos, '!' + ex], {}, fl | P.NEGATE
+        else:
+            args, kw, f2 = pos, {'exclude': ex}, fl
+        rg = K.outcome(lambda: list(P.Path('.').rglob(args, flags=f2, **kw)))
+        if rg[0] != 'ok':
+            continue
+        for q in cands:
+            if '\n' in q or any(c in ('.', '..') for c in q.split('/')):
+                continue
+            m = K.outcome(lambda: P.Path(q).match(args, flags=f2 | P.REALPATH, **kw))
+            if m[0] != 'ok':
+                continue
+            sr.evaluations += 1
+            member = P.Path(q) in rg[1]
+            _hist(sr, f'neg-match-vs-rglob:{"both" if m[1] and member else "neither" if not m[1] and not member else "DIFFER"}')
+            if bool(m[1]) != member:
+                # the same question through the public glob API decides which side is wrong — both are reported
+                ck.report(Failing(f'Path({q!r}).match({args!r}, {how}, REALPATH) is {m[1]} but Path(".").rglob yields it: {member}',
+                                  {'api': 'match-vs-rglob', 'path': q, 'pattern': args, 'exclude': kw.get('exclude'), 'flags': f2,
+                                   'flag_names': K.flag_names(P, f2), 'tree': tree}, {'match': member}, {'match': m[1], 'rglob_yields': member},
+                                  'wcmatch/_wcmatch.py:_match_real (exclusions); wcmatch/glob.py:_match_excluded'), None)
+
 
 def _glob_cases(ck, sr_k8, sr, drv, G, P, W, R, root, tree, ents, pats, fl, exclude, full) -> None:
     # every path object naming an entry of the tree or its root (quick tier: the root + 5 sampled entries)
